@@ -1018,7 +1018,91 @@ func (br *bodyRun) runBlock(b *ssa.BasicBlock, st *State) {
 				}
 			}
 		}
+		br.applyRelies(b, idx, ins, st)
 		br.userAsserts(b, idx, ins, st, "after")
+	}
+}
+
+// applyRelies: at a blocking select the goroutine may have been suspended; the locations a rely
+// clause names may have been changed by other goroutines, and the clause's condition (an
+// assumption about those goroutines, reported as such) holds afterwards. 'selected' is the
+// index of the case that fired.
+func (br *bodyRun) applyRelies(b *ssa.BasicBlock, idx int, ins ssa.Instruction, st *State) {
+	if br.ct == nil || len(br.ct.Relies) == 0 {
+		return
+	}
+	fc := br.fc
+	sel, isSel := ins.(*ssa.Select)
+	ci, isCall := ins.(ssa.CallInstruction)
+	if !isSel && !isCall {
+		return
+	}
+	var sels []*ssa.Select
+	for _, bb := range br.fn.Blocks {
+		for _, in2 := range bb.Instrs {
+			if s2, ok := in2.(*ssa.Select); ok {
+				sels = append(sels, s2)
+			}
+		}
+	}
+	sort.SliceStable(sels, func(i, j int) bool { return sels[i].Pos() < sels[j].Pos() })
+	ord := 0
+	for k, s2 := range sels {
+		if s2 == sel {
+			ord = k + 1
+		}
+	}
+	for _, r := range br.ct.Relies {
+		fs := strings.Fields(r.At)
+		switch {
+		case len(fs) == 2 && fs[0] == "after" && strings.HasPrefix(fs[1], "select"):
+			if !isSel {
+				continue
+			}
+			if j := strings.Index(fs[1], "#"); j >= 0 {
+				want := 0
+				fmt.Sscanf(fs[1][j+1:], "%d", &want)
+				if want != ord {
+					continue
+				}
+			}
+		case len(fs) == 3 && fs[0] == "after" && fs[1] == "call":
+			if !isCall {
+				continue
+			}
+			name, want := fs[2], 0
+			if j := strings.Index(name, "#"); j >= 0 {
+				fmt.Sscanf(name[j+1:], "%d", &want)
+				name = name[:j]
+			}
+			if calleeName(ci) != name || (want != 0 && want != br.siteOrdinal(ci, name)) {
+				continue
+			}
+		default:
+			sfail("rely anchor %q: only 'after select[#k]' and 'after call f[#k]' are supported", r.At)
+		}
+		env := br.envAt(b, idx, st, nil)
+		pre := st
+		for _, h := range r.Havoc {
+			for _, tg := range fc.assignTargets(env, h) {
+				fc.havocTarget(st, pre, tg)
+			}
+		}
+		env = br.envAt(b, idx, st, nil)
+		if isSel {
+			if tup, ok := fc.vals[sel].(TupleV); ok && len(tup) > 0 {
+				env.vars["selected"] = TV{tup[0], types.Typ[types.Int]}
+			}
+		}
+		if isCall {
+			if v := ci.Value(); v != nil {
+				if rv, ok := fc.vals[v]; ok {
+					env.vars["ret"] = TV{rv, v.Type()}
+				}
+			}
+		}
+		fc.assume(st, fc.hyp(env, r.E))
+		fc.note("rely (assumed guarantee of other goroutines) in %s: %s", fc.fnKey(), r.Src)
 	}
 }
 
